@@ -69,18 +69,30 @@ def combos(tier):
     return out
 
 
-def run(spec, cfg, sc, limit, expire_at, time_limit=1.0):
+def run(spec, cfg, sc, limit, expire_at, time_limit=1.0, work=None):
     c = dict(cfg)
     c["iteration_limit"] = limit
     c["params"] = {"time_limit": time_limit}
     clock = R.VirtualClock(expire_at=expire_at)
     clock.record_sites = True
+    wrap = None
+    if work is not None:
+        # work clock: every callback evaluation takes one second (the `slow`-th one 50 s); time passes gradually, not in one jump
+        from pgfmc.drive.problems import TickingProblem
+
+        class Work(TickingProblem):
+            def _tick(self_):
+                self_.evals += 1
+                clock.offset += 50.0 if self_.evals == work.get("slow") else 1.0
+
+        def wrap(p):
+            return Work(p, clock, 1.0)
 
     def pre(solver):
         solver.clock = clock
         solver.spans = []
 
-    ctx = G.execute({"spec": spec, "cfg": c, "sc": sc}, clock=clock, solver_cls=ClockSolver, pre=pre)
+    ctx = G.execute({"spec": spec, "cfg": c, "sc": sc}, clock=clock, solver_cls=ClockSolver, pre=pre, problem_wrap=wrap)
     ctx.clock = clock
     return ctx
 
@@ -107,12 +119,23 @@ def cases(tier, seed):
         for i in range(0, len(js), 16):
             out.append({"spec": spec, "cfg": cfg, "sc": sc, "kind": "clock", "stops": js[i:i + 16]})
         out.append({"spec": spec, "cfg": cfg, "sc": sc, "kind": "zero_deadline", "stops": [0.0, 1e-9]})
+        if cfg.get("linear") is None and spec["n"] <= 3 and (tier != "quick" or (cfg["control"] == "Exact" and cfg.get("display_interval") is None)):
+            # gradually passing time: EVERY whole-second deadline of a run in which each evaluation takes a second
+            for slow in ((None, 7) if tier == "quick" else (None, 7, 19)):
+                w = {"slow": slow}
+                refw = run(spec, cfg, sc, HOR, None, time_limit=1e18, work=w)
+                if refw.rec is None or refw.rec.result is None:
+                    continue
+                total = int(refw.clock.offset) + 2
+                ts = [t + 0.5 for t in range(0, total)]
+                for i in range(0, len(ts), 24):
+                    out.append({"spec": spec, "cfg": cfg, "sc": sc, "kind": "work", "work": w, "stops": ts[i:i + 24]})
     return out
 
 
 def run_case(case):
     spec, cfg, sc = case["spec"], case["cfg"], case["sc"]
-    ref = run(spec, cfg, sc, HOR, None)
+    ref = run(spec, cfg, sc, HOR, None, time_limit=1e18, work=case["work"]) if case["kind"] == "work" else run(spec, cfg, sc, HOR, None)
     Rr = ref.rec
     viol, keys = [], []
     n = len(Rr.trials)
@@ -156,6 +179,8 @@ def run_case(case):
             continue
         if case["kind"] == "iter":
             ctx = run(spec, cfg, sc, stop, None)
+        elif case["kind"] == "work":
+            ctx = run(spec, cfg, sc, HOR, None, time_limit=stop, work=case["work"])
         else:
             ctx = run(spec, cfg, sc, HOR, stop)
         rec = ctx.rec
@@ -178,7 +203,7 @@ def run_case(case):
                 is_int = (i == q - 1 and np.array_equal(t.it_in.x, t0.it_in.x) and np.array_equal(t.it_in.y, t0.it_in.y)
                           and t.rho == t0.rho and t.dt == t0.dt and not t.accepted and M.same(t.it_out, t.it_in)
                           and t.lamb == 2.0 * (1.0 / t.dt))
-                if is_int and case["kind"] == "clock":
+                if is_int and case["kind"] in ("clock", "work"):
                     interrupted = True
                 else:
                     bad("trial_differs", f"trial {i} of {q} differs from the unlimited run (dt {t.dt!r} vs {t0.dt!r}, accepted {t.accepted} vs {t0.accepted})")
@@ -200,6 +225,16 @@ def run_case(case):
                 bad("status", f"status {r.status.name}, expected {exp} (budget {stop}, natural length {n})")
             if q != min(stop, n):
                 bad("length", f"{q} trials with budget {stop} (natural length {n})")
+        elif case["kind"] == "work":
+            # the solve ends at its natural end, or with TimeLimit after the deadline has passed on the work clock
+            if r.status.name == "TimeLimit":
+                stats["timelimit"] += 1
+                if ctx.clock.offset + 1.0 < stop:
+                    bad("time_limit_before_deadline", f"TimeLimit although only {ctx.clock.offset:.0f} s of work were done (deadline {stop})")
+            elif q != n or r.status.name != Rr.result.status.name:
+                bad("status", f"status {r.status.name} after {q} trials; the unlimited run ends {Rr.result.status.name} after {n}")
+            if interrupted:
+                stats["interrupted"] += 1
         else:
             if tstart is None or stop <= tstart:
                 # the deadline position precedes the timer's own start read: the clock never appears expired
